@@ -103,6 +103,11 @@ func (p *LeakyBucketPacer) Write(header *rtp.Header, payload []byte, attributes 
 		return 0, errLeakyBucketPacerPoolCastFailed
 	}
 
+	if len(payload) > len(*buf) {
+		// payload does not fit the pooled buffer, fall back to a dedicated allocation
+		b := make([]byte, len(payload))
+		buf = &b
+	}
 	copy(*buf, payload)
 	hdr := header.Clone()
 
